@@ -71,7 +71,21 @@ def gen_c12_case(rng: random.Random):
             "emf": rng.choice([10**6, 10**6, 1, 10**3])}
 
     def weights(keys, universe):
-        mode = rng.choice(["equal", "exact", "superset", "unsorted", "unnormalised", "tiny", "nearly_normalised"])
+        mode = rng.choice(["equal", "exact", "superset", "unsorted", "unnormalised", "tiny", "nearly_normalised", "huge_int", "superset_neg"])
+        if mode == "huge_int":
+            # whole numbers of the order of 1e15 (outputs in currency units), integer dtype: their pairwise products exceed 2**63
+            return {k: float(rng.choice([1, 2, 3, 5, 7]) * 10**15) for k in keys}, mode
+        if mode == "superset_neg":
+            # a vector covering more labels than the affected ones (value added of every industry, say), negative for one
+            # label that is NOT affected: only the affected entries are weights
+            others = [u for u in universe if u not in keys]
+            if others:
+                w = {k: rng.choice([1.0, 2.0, 0.5, 7.0]) for k in keys}
+                w[rng.choice(others)] = -rng.choice([1.0, 3.5])
+                items = list(w.items())
+                rng.shuffle(items)
+                return dict(items), mode
+            mode = "exact"
         if mode == "equal":
             return None, mode
         ks = list(keys)
@@ -169,6 +183,11 @@ def gen_c12_case(rng: random.Random):
     return case
 
 
+def _c12_dtype(vals):
+    """whole numbers of the order of 1e15 are given with an integer dtype"""
+    return "int64" if vals and all(float(v).is_integer() and abs(v) >= 1e14 for v in vals) else float
+
+
 def run_c12_impl(case):
     kw = dict(occurrence=1, duration=1, event_monetary_factor=case.get("emf", 10**6))
     if case["event_type"] == "rebuild":
@@ -178,13 +197,13 @@ def run_c12_impl(case):
     try:
         if case["kind"] == "industries":
             w = case["weights"]
-            distrib = "equal" if w is None else pd.Series({tuple(k): v for k, v in w}, dtype=float)
+            distrib = "equal" if w is None else pd.Series({tuple(k): v for k, v in w}, dtype=_c12_dtype([v for _, v in w]))
             if w is not None:
                 distrib.index = pd.MultiIndex.from_tuples(list(distrib.index), names=["region", "sector"]) if len(distrib) else distrib.index
             ev = bev.from_scalar_industries(case["impact"], affected_industries=[tuple(a) for a in case["aff"]], impact_distrib=distrib, **kw)
         elif case["kind"] == "regions_sectors":
-            wr = "equal" if case["wr"] is None else pd.Series({k: v for k, v in case["wr"]}, dtype=float)
-            ws = "equal" if case["ws"] is None else pd.Series({k: v for k, v in case["ws"]}, dtype=float)
+            wr = "equal" if case["wr"] is None else pd.Series({k: v for k, v in case["wr"]}, dtype=_c12_dtype([v for _, v in case["wr"]]))
+            ws = "equal" if case["ws"] is None else pd.Series({k: v for k, v in case["ws"]}, dtype=_c12_dtype([v for _, v in case["ws"]]))
             ev = bev.from_scalar_regions_sectors(case["impact"], affected_regions=list(case["regs"]), affected_sectors=list(case["secs"]),
                                                  impact_regional_distrib=wr, impact_sectoral_distrib=ws, **kw)
         else:
@@ -362,6 +381,8 @@ def malformed_cases():
     cases.append(("technical coefficients inconsistent with Z and x", inconsistent_A))
     cases.append(("psi above 1", lambda: scen.build_model(tb, dict(cfg, psi=1.2))))
     cases.append(("psi above 1 (string)", lambda: scen.build_model(tb, dict(cfg, psi="1_5"))))
+    cases.append(("psi above 1 (string 1_2)", lambda: scen.build_model(tb, dict(cfg, psi="1_2"))))
+    cases.append(("psi above 1 (numpy float)", lambda: scen.build_model(tb, dict(cfg, psi=np.float64(1.05)))))
     cases.append(("psi of a wrong type", lambda: scen.build_model(tb, dict(cfg, psi=[0.8]))))
     cases.append(("non-integer inventory restoration tau", lambda: scen.build_model(tb, dict(cfg, restoration_tau={s: 2.5 for s in scen.labels(tb)[1]}))))
     cases.append(("inventory restoration tau of a wrong type", lambda: scen.build_model(tb, dict(cfg, restoration_tau="60"))))
@@ -383,6 +404,8 @@ def malformed_cases():
     cases.append(("recovery tau zero", ev(recovery_tau=0)))
     cases.append(("recovery tau negative", ev(recovery_tau=-3)))
     cases.append(("recovery tau non-integer", ev(recovery_tau=2.5)))
+    cases.append(("recovery tau non-integer (numpy float32, as read from a float32 column)", ev(recovery_tau=np.float32(2.5))))
+    cases.append(("recovery tau non-integer (numpy float64)", ev(recovery_tau=np.float64(3.5))))
     cases.append(("occurrence zero", ev(occ=0)))
     cases.append(("occurrence beyond the horizon", ev(occ=11)))
     cases.append(("occurrence + duration beyond the horizon", ev(occ=8, dur=5)))
@@ -409,6 +432,7 @@ def malformed_cases():
         return f
     cases.append(("rebuild tau zero", reb(rebuild_tau=0)))
     cases.append(("rebuild tau non-integer", reb(rebuild_tau=1.5)))
+    cases.append(("rebuild tau non-integer (numpy float32)", reb(rebuild_tau=np.float32(2.5))))
     cases.append(("rebuilding shares not summing to 1", reb(reb_sectors={"build": 0.5, "manu": 0.3})))
     cases.append(("unknown rebuilding sector", reb(reb_sectors={"nosuch": 1.0})))
     cases.append(("rebuilding sectors missing", reb(reb_sectors=None)))
@@ -868,6 +892,45 @@ def explore_c16(tier, seed):
                     continue
                 res["scenarios"] += 1
                 bump(res, f"{stream}/{'manual' if manual else 'loop'}/saved={len(saved)}/stocks={reg}/stop={stop_early}")
+                # what an accessor returns is the user's own snapshot: it does not change when later steps are written, and
+                # editing it in place does not edit the record (in memory or in its file)
+                if i % 2 == 0 and sc["T"] // int(sc["model"]["dt"]) >= 4:
+                    od2 = tempfile.mkdtemp(prefix="verif_c16v_")
+                    try:
+                        simv = scen.build_sim(sc2, outdir=od2)
+
+                        def _adv(k_):
+                            for _ in range(k_):
+                                try:
+                                    if simv.next_step() == 1:
+                                        return
+                                except Exception:
+                                    return          # (scenarios of this stream may stop on a reported error)
+                        _adv(2)
+                        names_v = [r for r in ("production_realised", "final_demand_unmet", "production_capacity", "limiting_inputs") ]
+                        frames = {r: getattr(simv, r) for r in names_v}
+                        snaps_v = {r: frames[r].to_numpy().copy() for r in names_v}
+                        _adv(2)
+                        for r in names_v:
+                            if not np.array_equal(frames[r].to_numpy(), snaps_v[r], equal_nan=True):
+                                viol(res, "C16", f"the frame returned by the accessor of {r} changed by itself when later steps were simulated "
+                                                 f"({'file' if r in saved else 'memory'} record)", case={"saved": saved})
+                        before_v = {r: getattr(simv, r).to_numpy().copy() for r in names_v}
+                        for r in names_v:
+                            fr = getattr(simv, r)
+                            try:
+                                fr.iloc[0, 0] = 12345 if r != "limiting_inputs" else 1
+                                fr.iloc[-1, -1] = 12345 if r != "limiting_inputs" else 1
+                            except Exception:
+                                continue          # (a read-only frame is fine too)
+                        for r in names_v:
+                            if not np.array_equal(getattr(simv, r).to_numpy(), before_v[r], equal_nan=True):
+                                viol(res, "C16", f"editing the frame returned by the accessor of {r} in place changed the record "
+                                                 f"({'file' if r in saved else 'memory'} record)", case={"saved": saved})
+                    except Exception as e:
+                        viol(res, "C16", f"accessor snapshot sequence fails: {type(e).__name__}: {str(e)[:120]}", case={"saved": saved})
+                    finally:
+                        shutil.rmtree(od2, ignore_errors=True)
                 if rng.random() < 0.5:
                     # looking at a record before / during the run must not change what is seen afterwards
                     _ = sim.production_realised, sim.limiting_inputs
